@@ -877,13 +877,17 @@ static void Gen(uint64_t seed, bool thorough)
 	/* output parsing through the finished-handler */
 	Must("C " + std::to_string(++n));
 	int outs = thorough ? 150000 : 30000;
-	for (int i = 0; i < outs; i++)
+	for (int i = 0; i < outs; i++) {
+		if (i % 25 == 24) Must("C " + std::to_string(++n));   /* small cases keep shrinking cheap */
 		Must("P " + std::to_string(RandExit(r)) + " " + Hex(RandOutput(r)));
+	}
 	/* /bin/sh against the word-splitting model */
 	Must("C " + std::to_string(++n));
 	int shs = thorough ? 4000 : 500;
-	for (int i = 0; i < shs; i++)
+	for (int i = 0; i < shs; i++) {
+		if (i % 25 == 24) Must("C " + std::to_string(++n));
 		Must("W " + Hex(RandShText(r)));
+	}
 	/* end to end */
 	int spawns = thorough ? 2500 : 400;
 	for (int c = 0; c < spawns; c++) {
